@@ -60,6 +60,9 @@ func dispatch() int {
 		}
 		return 0
 
+	case "gen":
+		return genCmd()
+
 	case "golden":
 		b := buildAll(false)
 		eng := NewEngine(b)
